@@ -593,6 +593,10 @@ namespace bluetoe {
                     return;
                 }
             }
+
+            // nothing was sent, so no confirmation will arrive: do not wait for one
+            if ( pending.first == details::notification_queue_entry_type::indication )
+                connection.indication_confirmed();
         }
 
         out_size = 0;
